@@ -1,7 +1,33 @@
 (* C08 Generalized hash tries behave as sets of tuples.
    Only the property theorems; each is closed by an exact/apply of a lemma proved in
-   Coll/PGHT.v and followed by Print Assumptions.  Model: Coll/ModelGHT.v. *)
+   Coll/PGHT.v and followed by Print Assumptions.  Model: Coll/ModelGHT.v.
+   [wf h d t]: t is a trie of height h keyed from column d on, as produced by insert/merge. *)
 From HV Require Import Coll.ModelGHT Coll.PGHT.
+
+(* rows (insert t r) = rows t U {r}, for any height *)
+Theorem C08_insert :
+  forall h d t r, wf h d t ->
+    wf h d (insert h d t r) /\
+    forall x, In x (riter h (insert h d t r)) <-> In x (riter h t) \/ x = r.
+Proof. exact insert_spec. Qed.
+Print Assumptions C08_insert.
+
+Theorem C08_contains :
+  forall h d t r, wf h d t -> (contains h d t r = true <-> In r (riter h t)).
+Proof. exact contains_spec. Qed.
+Print Assumptions C08_contains.
+
+(* recursive_iter enumerates the rows without duplicates *)
+Theorem C08_iter_nodup : forall h d t, wf h d t -> NoDup (riter h t).
+Proof. exact riter_nodup. Qed.
+Print Assumptions C08_iter_nodup.
+
+(* partial_cmp is the subset comparison of the row sets whenever it returns; when it panics
+   (unreachable!()) the row sets are incomparable, i.e. the specified answer is None *)
+Theorem C08_pcmp :
+  forall h d a b, wf h d a -> wf h d b -> cmp_rel (riter h a) (riter h b) (pcmp h a b).
+Proof. exact pcmp_spec. Qed.
+Print Assumptions C08_pcmp.
 
 (* recorded finding: GhtInner::partial_cmp reaches unreachable!() on incomparable tries *)
 Theorem C08_pcmp_refuted :
@@ -10,3 +36,15 @@ Theorem C08_pcmp_refuted :
     pcmp h a b = PPanic /\ subset_cmp (riter h a) (riter h b) = PNone.
 Proof. exact pcmp_refuted. Qed.
 Print Assumptions C08_pcmp_refuted.
+
+(* ---- non-vacuity *)
+Example C08_ex_wf :
+  let t := insert 2 0 (insert 2 0 (insert 2 0 (empty 2) [1; 2; 3]%N) [1; 4; 5]%N) [2; 2; 2]%N in
+  wf 2 0 t /\ riter 2 t = [[1; 2; 3]; [1; 4; 5]; [2; 2; 2]]%N.
+Proof.
+  split; [|vm_compute; reflexivity].
+  repeat apply insert_spec. apply wf_empty.
+Qed.
+Example C08_ex_pcmp :
+  pcmp 1 (insert 1 0 (insert 1 0 (empty 1) [1; 1]%N) [2; 2]%N) (insert 1 0 (empty 1) [1; 1]%N) = PSome Gt.
+Proof. vm_compute. reflexivity. Qed.
